@@ -56,7 +56,26 @@ def exhaustive(tier):
 def nontrivial(case):
     if case['mode'] == 'stress':
         return True
-    return any(k > 0 for _t, k in case['segs'][:-1]) or len(case['segs']) > 2
+    return preemptions(case['segs'], case['pts'], case['trace']) > 0
+
+
+def preemptions(segs, pts, traced):
+    """Number of hand-overs that stop a thread strictly inside its request (pts = measured points per thread)."""
+    left = list(pts)
+    used = [0] * len(pts)
+    n = 0
+    for t, k in segs:
+        if left[t] <= 0 and used[t]:
+            continue
+        if k < 0 or k >= left[t]:
+            left[t] = 0
+            used[t] = max(used[t], 1)
+            continue
+        left[t] -= k + 1
+        used[t] += k + 1
+        if used[t] > (1 if traced else 0):
+            n += 1
+    return n
 
 
 # ---------------------------------------------------------------------------------------------
@@ -88,25 +107,28 @@ def _safe(fn):
         return 'EXC:' + type(e).__name__
 
 
-def view(app, ctx, tag, body=False):
-    """Record what app.request / app.response show to the running code right now."""
+def view(app, ctx, tag, body=False, full=False):
+    """Record what app.request / app.response show to the running code right now (light: the slots every request
+    has; full: plus the parsed query, header, cookies, url, content length)."""
     rq, rs = app.request, app.response
     v = dict(
         env_is_mine=_safe(lambda: rq.environ is ctx.tl.env),
-        marker=_safe(lambda: rq.environ.get('x.rid')),
+        marker=_safe(lambda: rq.get('x.rid')),
         path=_safe(lambda: rq.path),
-        method=_safe(lambda: rq.method),
         qs=_safe(lambda: rq.query_string),
-        query=_safe(lambda: sorted(rq.query.items())),
-        xid=_safe(lambda: rq.headers.get('X-Id')),
-        cookies=_safe(lambda: sorted(rq.cookies.items())),
-        clen=_safe(lambda: rq.content_length),
-        url=_safe(lambda: rq.url),
-        get=_safe(lambda: rq.get('x.rid')),
         status=_safe(lambda: (rs.status_code, rs.status_line)),
         headerlist=_safe(lambda: sorted(rs.headerlist)),
-        hdr_keys=_safe(lambda: sorted(rs.headers.keys())),
     )
+    if full:
+        v.update(
+            method=_safe(lambda: rq.method),
+            query=_safe(lambda: sorted(rq.query.items())),
+            xid=_safe(lambda: rq.headers.get('X-Id')),
+            cookies=_safe(lambda: sorted(rq.cookies.items())),
+            clen=_safe(lambda: rq.content_length),
+            url=_safe(lambda: rq.url),
+            hdr_keys=_safe(lambda: sorted(rs.headers.keys())),
+        )
     if body:
         v['body'] = _safe(lambda: rq.body.read())
     ctx.rec(tag, v)
@@ -121,8 +143,8 @@ def make_app(ctx):
     request, response = app.request, app.response
     P = ctx.point
 
-    def V(tag, body=False):
-        view(app, ctx, tag, body)
+    def V(tag, body=False, full=False):
+        view(app, ctx, tag, body, full)
 
     @app.on('before_request')
     def before():
@@ -134,7 +156,7 @@ def make_app(ctx):
     @app.on('after_request')
     def after():
         P('after')
-        V('after')
+        V('after', full=True)
 
     @app.on_route('/hk')
     def route_hook(prefix):
@@ -441,7 +463,7 @@ def gen_cases(tier, seed):
     # S1: one preemption at every statement
     for k0, k1 in pairs:
         for i in range(1, cnt[(k0, True)]):
-            yield dict(mode='sched', kinds=[k0, k1], trace=1, segs=[[0, i], [1, -1], [0, -1]])
+            yield dict(mode='sched', kinds=[k0, k1], trace=1, segs=[[0, i], [1, -1], [0, -1]], pts=[cnt[(k0, True)], cnt[(k1, True)]])
     # S2: two preemptions on a grid
     s2pairs = pairs if quick else list(itertools.product(KINDS, repeat=2))
     for k0, k1 in s2pairs:
@@ -449,23 +471,26 @@ def gen_cases(tier, seed):
         g = (12 if both_all else 5) if quick else (30 if both_all else 8)
         for i in _grid(cnt[(k0, True)], g):
             for j in _grid(cnt[(k1, True)], g):
-                yield dict(mode='sched', kinds=[k0, k1], trace=1, segs=[[0, i], [1, j], [0, -1], [1, -1]])
+                yield dict(mode='sched', kinds=[k0, k1], trace=1, segs=[[0, i], [1, j], [0, -1], [1, -1]],
+                           pts=[cnt[(k0, True)], cnt[(k1, True)]])
     # S3: explicit points, all interleavings of two threads
     for k0, k1 in pairs:
         p0, p1 = cnt[(k0, False)], cnt[(k1, False)]
         for segs in tc.interleavings([p0 + 1, p1 + 1]):
-            yield dict(mode='sched', kinds=[k0, k1], trace=0, segs=segs)
+            yield dict(mode='sched', kinds=[k0, k1], trace=0, segs=segs, pts=[p0, p1])
     # S4: three threads, nested windows
     for _ in range(40 if quick else 600):
         ks = [rnd.choice(KINDS), rnd.choice(KINDS), rnd.choice(KINDS)]
+        pts = [cnt[(k, True)] for k in ks]
         for i in _grid(cnt[(ks[0], True)], 4 if quick else 6):
             for j in _grid(cnt[(ks[1], True)], 4 if quick else 6):
-                yield dict(mode='sched', kinds=ks, trace=1, segs=[[0, i], [1, j], [2, -1], [1, -1], [0, -1]])
+                yield dict(mode='sched', kinds=ks, trace=1, segs=[[0, i], [1, j], [2, -1], [1, -1], [0, -1]], pts=pts)
         i = rnd.randrange(1, max(2, cnt[(ks[0], True)]))
         j = rnd.randrange(1, max(2, cnt[(ks[1], True)]))
         k = rnd.randrange(1, max(2, cnt[(ks[2], True)]))
-        yield dict(mode='sched', kinds=ks, trace=1, segs=[[0, i], [1, j], [2, k], [0, -1], [1, -1], [2, -1]])
-        yield dict(mode='sched', kinds=ks, trace=1, segs=[[0, i], [1, j], [2, k], [1, j // 2 + 1], [0, i // 2 + 1], [2, -1], [0, -1]])
+        yield dict(mode='sched', kinds=ks, trace=1, segs=[[0, i], [1, j], [2, k], [0, -1], [1, -1], [2, -1]], pts=pts)
+        yield dict(mode='sched', kinds=ks, trace=1, segs=[[0, i], [1, j], [2, k], [1, j // 2 + 1], [0, i // 2 + 1], [2, -1], [0, -1]],
+                   pts=pts)
     # S5: free race
     for r in range(6 if quick else 40):
         yield dict(mode='stress', kinds=[rnd.choice(KINDS) for _ in range(3)], rounds=30 if quick else 200, r=r)
@@ -538,9 +563,9 @@ def _run_stress(case):
     old = sys.getswitchinterval()
     sys.setswitchinterval(1e-6)
     try:
-        ctx = Ctx(None)
-        app = make_app(ctx)
         for rnd in range(case['rounds']):
+            ctx = Ctx(None)
+            app = make_app(ctx)
             sched = tc.Sched(n, [], free=True)
             fns = [(lambda tid=tid: serve_one(app, ctx, kinds[tid], _RIDS[tid])) for tid in range(n)]
             results = sched.run(fns)
